@@ -149,6 +149,20 @@ func genC18(r *vh.Rand, idx int) c18Spec {
 			}
 		}
 	}
+	// directed: a session subscribes, later unsubscribes and at once subscribes again (one caller), and the
+	// resource is updated afterwards: the second subscription must be in force
+	for si := range s.Sessions {
+		if r.Chance(1, 3) {
+			uri := r.Intn(len(c18URIs))
+			t0 := r.Range(2, 40)
+			s.Ops = append(s.Ops, c18Op{At: t0, Op: "sub", Sess: si, URI: uri, Kind: "resources"},
+				c18Op{At: t0 + r.Range(15, 40), Op: "resub", Sess: si, URI: uri, Kind: "resources"},
+				c18Op{At: t0 + 95, Op: "update", Sess: si, URI: uri, Kind: "resources"})
+			if at < t0+95 {
+				at = t0 + 95
+			}
+		}
+	}
 	s.EndAt = at + 150
 	return s
 }
@@ -191,7 +205,7 @@ type c18Change struct {
 type c18Update struct {
 	uri               string
 	nonce             int
-	t                 int64
+	t, tDone          int64
 	seqStart, seqDone int64
 	count             int
 }
@@ -640,8 +654,16 @@ func runC18(c *vh.Case, spec c18Spec) *c18World {
 	// serialises server-side changes and updates issued by the harness; a channel, not a mutex:
 	// the holder may sleep (slowed writes) and waiting must count as durably blocked in the bubble
 	changeSem := make(chan struct{}, 1)
-	doOp := func(op c18Op) {
+	var doOp func(op c18Op)
+	doOp = func(op c18Op) {
 		switch op.Op {
+		case "resub":
+			// Unsubscribe directly followed by Subscribe of the same URI, by one caller
+			u := op
+			u.Op = "unsub"
+			doOp(u)
+			u.Op = "sub"
+			doOp(u)
 		case "add", "remove":
 			changeSem <- struct{}{}
 			defer func() { <-changeSem }()
@@ -695,7 +717,7 @@ func runC18(c *vh.Case, spec c18Spec) *c18World {
 			if !ok {
 				cnt = -1
 			}
-			w.updates = append(w.updates, c18Update{uri: uri, nonce: nonce, t: e1.T, seqStart: e1.Seq, seqDone: e2.Seq, count: cnt})
+			w.updates = append(w.updates, c18Update{uri: uri, nonce: nonce, t: e1.T, tDone: e2.T, seqStart: e1.Seq, seqDone: e2.Seq, count: cnt})
 			w.mu.Unlock()
 		case "sub", "unsub":
 			cs := session(op.Sess)
@@ -977,6 +999,11 @@ func decideC18(c *vh.Case, spec c18Spec, w *c18World) {
 			openSub, openUnsub, tainted := 0, 0, false
 			for _, ev := range rt.subEvents[u.uri] {
 				if ev.t > u.t {
+					// a subscribe/unsubscribe while ResourceUpdated is still delivering (slow writes to other
+					// sessions make the call last): either order is a valid linearisation
+					if ev.t <= u.tDone {
+						ambiguous = true
+					}
 					break
 				}
 				if ev.t == u.t {
